@@ -176,6 +176,11 @@ pub fn enumerated_cases() -> Vec<Vec<String>> {
     // anchored slices and arenas (each clone_from retires the destination's handle and appends a new one)
     cases.push(c(&["new_arena", "read_n a0 8 2 0102030405060708 d8", "read_n a0 4 2 a1a2a3a4 d4", "s_clone_from s0 s1", "s_drop s1", "s_default",
         "s_clone_from s2 s3", "unwinding s_clone_from s3 s4", "drop_arena a0", "s_drop s4", "s_drop s5"]));
+    // a destination without a chunk (Default) overwritten with a real slice must keep the chunk alive on its own
+    cases.push(c(&["new_arena", "read_n a0 8 2 0102030405060708 d8", "s_default", "s_clone_from s1 s0", "s_drop s0", "drop_arena a0", "new_arena",
+        "read_n a1 8 2 1112131415161718 d8", "s_drop s2", "s_drop s3", "drop_arena a1"]));
+    cases.push(c(&["new_arena", "new_arena", "read_n a0 8 2 0102030405060708 d8", "read_n a1 4 2 a1a2a3a4 d4", "unwinding s_clone_from s1 s0", "s_drop s0",
+        "drop_arena a0", "read_n a1 4 2 b1b2b3b4 d4", "s_drop s2", "s_drop s3", "drop_arena a1"]));
     cases.push(c(&["new_arena", "new_arena", "read_n a0 8 2 0102030405060708 d8", "a_clone_from a1 a0", "read_n a2 4 2 a1a2a3a4 d4", "drop_arena a0",
         "read_n a2 4 2 b1b2b3b4 d4", "new_arena", "unwinding a_clone_from a2 a3", "drop_arena a3", "drop_arena a4", "s_drop s0", "s_drop s1", "s_drop s2"]));
     cases
